@@ -104,7 +104,10 @@ class Pipeline(_PayloadProcessor):
         self.logger.info("Starting pipeline with %s nodes", node_count)
         self.stop_watch.start()  # existing pipeline timer start
 
+        # Run metadata belongs to exactly one run: it is consumed here, also when
+        # that run fails, so that it can never be attached to a later run.
         run_meta = self._run_metadata
+        self._run_metadata = None
         result_payload = self.orchestrator.execute(
             pipeline_spec=self.resolved_spec,
             payload=payload,
@@ -116,7 +119,6 @@ class Pipeline(_PayloadProcessor):
         )
 
         self.nodes = self.orchestrator.last_nodes
-        self._run_metadata = None
 
         self.stop_watch.stop()  # existing pipeline timer stop
         self.logger.info("Pipeline execution complete.")
